@@ -657,6 +657,12 @@ func (c *eiCtx) runC11() string {
 				shapes = append(shapes, sprintf("%s(top=%d,nested=%d)", m.name, m.topMuxes, m.nestedMuxes))
 			}
 		}
+		if len(orig.dupCAN) > 0 {
+			// C11 identifies messages BY CAN-ID: a bus in which two messages have the same CAN-ID
+			// (a generated id that coincides with another generated or static one) has no DBC
+			// form; the generator avoids it, a rare coincidence is skipped, not judged
+			continue
+		}
 		imp, err := acmelib.ImportDBCFile("f.dbc", strings.NewReader(text))
 		if err != nil {
 			sig := "c11-import-rejected:" + eiErrClass(err, 60)
